@@ -30,9 +30,19 @@ def snapshot(bp):
     }
 
 
-def new_phase(dealer, vul):
+def new_phase(dealer, vul, reused=0):
+    """reused=0: a fresh object.  reused=k>0: an object that has already run another auction (other dealer and vulnerability,
+    a doubled or redoubled contract reached or left standing) and is initialised again for this board by calling its
+    __init__ - the usual reset() idiom of an environment; an auction on it is an auction like any other."""
     from bridge_env import BiddingPhase
-    return BiddingPhase(dealer=be.SEAT[dealer], vul=be.VUL[vul])
+    if not reused:
+        return BiddingPhase(dealer=be.SEAT[dealer], vul=be.VUL[vul])
+    bp = BiddingPhase(dealer=be.SEAT[(dealer + reused) % 4], vul=be.VUL[be.VUL_NAMES[(be.VUL_NAMES.index(vul) + reused) % 4]])
+    old = [[18, X, PASS, PASS, PASS], [0, X, XX], [PASS, 33, X], [7, PASS, PASS, X, XX, PASS, PASS, PASS]][reused % 4]
+    for c in old:
+        bp.take_bid(be.BID[c])
+    bp.__init__(dealer=be.SEAT[dealer], vul=be.VUL[vul])
+    return bp
 
 
 def state_enums():
@@ -43,15 +53,20 @@ def state_enums():
 class Walk:
     """One auction under test. props: subset of {'C01','C02','C03'} selects the clauses checked."""
 
-    def __init__(self, dealer, vul, props, stats=None, deep_legal=True):
+    def __init__(self, dealer, vul, props, stats=None, deep_legal=True, reused=0):
         self.dealer, self.vul, self.props, self.stats = dealer, vul, props, stats
-        self.bp = new_phase(dealer, vul)
+        self.reused = reused
+        self.bp = new_phase(dealer, vul, reused)
+        if reused and stats is not None:
+            stats.cls('auctions on an object re-initialised after another auction')
         self.calls = []
         self.deep_legal = deep_legal
         self.S = state_enums()
 
     def case(self, extra=None):
         c = {'dealer': A.SEATS[self.dealer], 'vul': self.vul, 'calls': names(self.calls)}
+        if self.reused:
+            c['object_reused'] = self.reused
         if extra:
             c.update(extra)
         return c
@@ -249,9 +264,12 @@ class Walk:
             st_.nt([self.dealer, calls], self.case() if len(calls) in (2, 7, 30) else None)
 
 
-def run_sequence(dealer, vul, calls, props, stats=None, deep_legal=True, every_prefix=True):
+def run_sequence(dealer, vul, calls, props, stats=None, deep_legal=True, every_prefix=True, reused=None):
     """Walk a complete (model-legal) call sequence, checking at every prefix."""
-    w = Walk(dealer, vul, props, stats, deep_legal)
+    if reused is None:          # one sequence in six runs on a re-initialised object (a function of the sequence: replayable)
+        k = h64([dealer, vul, list(calls), 'reuse'])
+        reused = 1 + (k >> 8) % 7 if k % 6 == 0 else 0
+    w = Walk(dealer, vul, props, stats, deep_legal, reused=reused)
     if every_prefix:
         w.check_prefix()
         w.classify_prefix()
